@@ -1343,6 +1343,23 @@ class Lower:
             if n.get('hasElse'):
                 s += pad + 'else\n' + self.blk(ins[2], ind)
             return s
+        if k == 'WhileStmt' and n.get('hasVar') and self.inner(n) and self.inner(n)[0].get('kind') == 'DeclStmt':
+            # while (T v = init) S:  while (1) { T v = init; if (!v) break; S }   (the variable is re-initialised on every iteration)
+            ins = self.inner(n)
+            lc = self.loopc(ind)
+            self.loop_depth.append(len(self.scopes))
+            self.scopes.append([])
+            d = self.S(ins[0], ind + 1)
+            c = self.cond(ins[1], 'if')
+            pre = self.flush_pre(ind + 1)
+            b = self.blk(ins[2], ind + 1)
+            dt = self.dtors(ind + 1, 1)
+            lh = self.loop_head()
+            self.scopes.pop()
+            self.loop_depth.pop()
+            self.loop_id_stack.pop()
+            return ln + pad + 'while (1)\n' + lc + pad + '{\n' + pad + '    ' + lh + d + pre + \
+                pad + '    if (!(%s)) break;\n' % c + b + dt + pad + '}\n'
         if k == 'WhileStmt':
             ins = self.inner(n)
             lc = self.loopc(ind)
